@@ -129,10 +129,45 @@ func init() {
 		}
 		// and read it back
 		m, err := p.NewReader(bytes.NewReader(buf.Bytes())).ReadMessage()
-		if seq >= 0 && (err != nil || int(m.Type) != atoi(a[1]) || m.Name != string(unhx(a[2])) || int64(m.SeqID) != seq) {
+		if err != nil || int(m.Type) != atoi(a[1]) || m.Name != string(unhx(a[2])) || int64(m.SeqID) != seq {
 			return hx(buf.Bytes()) + ";readback-differs", "-", ""
 		}
 		return hx(buf.Bytes()), "-", ""
+	}
+	// ReadMessage on arbitrary bytes: `ok:<type&7> <namehex> <seq id> <unread bytes>` or the error class; optional oracle
+	ops["thrift.readmessage"] = func(a []string) (string, string, string) {
+		o := "-"
+		if len(a) > 2 {
+			o = a[2]
+		}
+		br := bytes.NewReader(unhx(a[1]))
+		m, err := thriftProto(a[0]).NewReader(br).ReadMessage()
+		if err != nil {
+			return thriftErrClass(err), o, ""
+		}
+		return fmt.Sprintf("ok:%d %s %d %d", int(m.Type), hx([]byte(m.Name)), m.SeqID, br.Len()), o, ""
+	}
+	// Writer.WriteField(Field{ID, Type, Delta}) alone; oracle (compact only): the specification's two header forms
+	ops["thrift.wfield"] = func(a []string) (string, string, string) {
+		var buf bytes.Buffer
+		id, _ := strconv.ParseInt(a[2], 10, 16)
+		tc := atoi(a[1])
+		delta := a[3] == "1"
+		if err := thriftProto(a[0]).NewWriter(&buf).WriteField(thrift.Field{ID: int16(id), Type: thrift.Type(tc), Delta: delta}); err != nil {
+			return "err", "-", ""
+		}
+		o := "-"
+		if a[0] == "c" {
+			switch {
+			case tc == 0:
+				o = "00"
+			case delta && id > 0 && id <= 15:
+				o = hx([]byte{byte(id)<<4 | byte(tc)})
+			default:
+				o = hx(append([]byte{byte(tc)}, putUvarint(uint64((id<<1)^(id>>63)), 0)...))
+			}
+		}
+		return hx(buf.Bytes()), o, ""
 	}
 	ops["thrift.alloc"] = func(a []string) (string, string, string) {
 		p := thriftProto(a[0])
@@ -390,6 +425,7 @@ func runC04(h *H) {
 			h.DoRisky("thrift.embedded", sh, strconv.Itoa(i))
 		}
 	}
+	h.thriftMessageRoundTrip(false)
 	for i := 0; i < N; i++ {
 		t, val := h.genThriftCase()
 		ts := t.String()
@@ -425,8 +461,10 @@ func runC13(h *H) {
 				op = "thrift.marshalx"
 			}
 			im, _ := h.DoRisky(op, pn, ts, val)
-			if pn == "c" && strings.HasPrefix(im, "ok:") {
+			if pn == "c" && strings.HasPrefix(im, "ok:") && !hasNarrowEnum(t) {
 				// every specification-conformant encoding is accepted: long forms where a short form exists
+				// (not for int8 enum fields: announced as I8 = one byte, written as an i32 varint — the type-agnostic walk of
+				// compactLongForms cannot follow those; known finding thriftEnumFieldType)
 				b := unhx(im[3:])
 				if alt, ok := compactLongForms(h, b); ok && !bytes.Equal(alt, b) {
 					h.DoRisky("thrift.decode", pn, "0", ts, hx(alt), want)
@@ -435,7 +473,7 @@ func runC13(h *H) {
 			}
 		}
 	}
-	// message headers
+	// message headers (the earlier sweep: names "", "ping", 130 bytes; then the directed ones)
 	for _, pn := range thriftProtos {
 		for mt := 0; mt < 4; mt++ {
 			for _, name := range []string{"-", "70696e67", hx(bytes.Repeat([]byte("n"), 130))} {
@@ -445,6 +483,31 @@ func runC13(h *H) {
 			}
 		}
 	}
+	h.thriftWriterMsg()
+	// field headers with an id delta and type 0 (the specification has one stop field: the byte 0); inputs with values of
+	// another type than the Go type, cut at every offset from the offending field on
+	h.thriftDeltaStop(true)
+	h.thriftMismatch(1)
+}
+
+// hasNarrowEnum: some int8 field carries the enum tag (its value is not encoded the way its announced type says)
+func hasNarrowEnum(t *Ty) bool {
+	switch t.K {
+	case "ptr", "sl", "arr", "named":
+		return hasNarrowEnum(t.Elem)
+	case "map":
+		return hasNarrowEnum(t.Key) || hasNarrowEnum(t.Elem)
+	case "st":
+		for _, f := range t.Fields {
+			if strings.Contains(f.Tag, ",enum") && baseOf(f.T).K == "i8" {
+				return true
+			}
+			if hasNarrowEnum(f.T) {
+				return true
+			}
+		}
+	}
+	return false
 }
 
 // compactLongForms re-encodes a compact-protocol struct stream using long forms for field headers and list headers
@@ -456,7 +519,7 @@ func compactLongForms(h *H, b []byte) ([]byte, bool) {
 	var walkValue func(t byte) bool
 	fail := false
 	need := func(n int) bool {
-		if pos+n > len(b) {
+		if n < 0 || n > len(b) || pos+n > len(b) {
 			fail = true
 			return false
 		}
@@ -493,7 +556,8 @@ func compactLongForms(h *H, b []byte) ([]byte, bool) {
 			pos += 8
 		case 8:
 			n, ok := copyVarint()
-			if !ok || !need(int(n)) {
+			if !ok || n > uint64(len(b)) || !need(int(n)) {
+				fail = true
 				return false
 			}
 			out = append(out, b[pos:pos+int(n)]...)
@@ -677,6 +741,10 @@ func runC08(h *H) {
 	if h.Thorough() {
 		N = 4000
 	}
+	h.thriftMismatch(0)
+	h.thriftBadTypes()
+	h.thriftDeltaStop(true)
+	h.thriftDepth()
 	for i := 0; i < N; i++ {
 		t, val := h.genThriftCase()
 		ts := t.String()
@@ -811,5 +879,1083 @@ func runC08(h *H) {
 			}
 			h.DoRisky("thrift.alloc", pn, lst, hx(e))
 		}
+	}
+}
+
+// ---- directed generators for the decoder / writer repairs ------------------------------------------
+//
+//	thriftMismatch   a value whose wire type does not match the Go type is skipped (non-strict) / reported (strict)
+//	thriftDeltaStop  compact field header with an id delta and type 0 is an error; binary type 0 is a stop whatever the id
+//	thriftDepth      nesting at the decoder's depth limit (maxDepth = 10000)
+//	thriftWriterMsg  WriteField forms, message headers written and read back, hand-made message headers
+
+// tbuild writes thrift bytes through the real Writer / Encoder.
+type tbuild struct {
+	pn   string
+	buf  bytes.Buffer
+	w    thrift.Writer
+	enc  *thrift.Encoder
+	last int16
+}
+
+func newTB(pn string) *tbuild {
+	b := &tbuild{pn: pn}
+	b.w = thriftProto(pn).NewWriter(&b.buf)
+	b.enc = thrift.NewEncoder(b.w)
+	return b
+}
+
+func (b *tbuild) bytes() []byte { return append([]byte{}, b.buf.Bytes()...) }
+
+// field header: the compact short form when it exists and short is set, the long form otherwise
+func (b *tbuild) field(id int16, t thrift.Type, short bool) {
+	d := int(id) - int(b.last)
+	if b.pn == "c" && short && d > 0 && d <= 15 {
+		b.w.WriteField(thrift.Field{ID: int16(d), Type: t, Delta: true})
+	} else {
+		b.w.WriteField(thrift.Field{ID: id, Type: t})
+	}
+	b.last = id
+}
+
+func (b *tbuild) stop() { b.w.WriteField(thrift.Field{Type: thrift.STOP}) }
+
+// wval: a value on the wire (its thrift type and how to write it)
+type wval struct {
+	t   thrift.Type
+	bv  int // bool values: 1 = true (a compact bool FIELD lives in its header)
+	put func(b *tbuild)
+}
+
+func wOf(v any) wval {
+	w := wval{t: thrift.TypeOf(reflect.TypeOf(v)), put: func(b *tbuild) { b.enc.Encode(v) }}
+	if x, ok := v.(bool); ok && x {
+		w.bv = 1
+	}
+	return w
+}
+
+func wRaw(t thrift.Type, raw []byte) wval {
+	return wval{t: t, put: func(b *tbuild) { b.buf.Write(raw) }}
+}
+
+func wList(set bool, et thrift.Type, elems ...wval) wval {
+	t := thrift.LIST
+	if set {
+		t = thrift.SET
+	}
+	return wval{t: t, put: func(b *tbuild) {
+		if set {
+			b.w.WriteSet(thrift.Set{Size: int32(len(elems)), Type: et})
+		} else {
+			b.w.WriteList(thrift.List{Size: int32(len(elems)), Type: et})
+		}
+		for _, e := range elems {
+			e.put(b)
+		}
+	}}
+}
+
+func wMap(kt, vt thrift.Type, kv ...wval) wval {
+	return wval{t: thrift.MAP, put: func(b *tbuild) {
+		b.w.WriteMap(thrift.Map{Size: int32(len(kv) / 2), Key: kt, Value: vt})
+		for _, e := range kv {
+			e.put(b)
+		}
+	}}
+}
+
+type wfld struct {
+	id int16
+	v  wval
+}
+
+func wStruct(fs ...wfld) wval {
+	return wval{t: thrift.STRUCT, put: func(b *tbuild) {
+		save := b.last
+		b.last = 0
+		for _, f := range fs {
+			b.putField(f.id, f.v, true)
+		}
+		b.stop()
+		b.last = save
+	}}
+}
+
+func wRep(v wval, n int) []wval {
+	out := make([]wval, n)
+	for i := range out {
+		out[i] = v
+	}
+	return out
+}
+
+// putField writes one struct field: header and value (a compact bool field is its header)
+func (b *tbuild) putField(id int16, v wval, short bool) {
+	if b.pn == "c" && (v.t == thrift.TRUE || v.t == thrift.BOOL) {
+		t := thrift.BOOL
+		if v.bv == 1 {
+			t = thrift.TRUE
+		}
+		b.field(id, t, short)
+		return
+	}
+	b.field(id, v.t, short)
+	v.put(b)
+}
+
+func tyF(name string, id int, opts string, t *Ty) Field {
+	return Field{Name: name, Tag: fmt.Sprintf(`thrift:"%d%s"`, id, opts), T: t}
+}
+
+var mmKinds = []string{"bool", "i8", "i16", "i32", "i64", "f64", "str", "list", "set", "map", "struct"}
+
+var mmGoTy = map[string]string{"bool": "bool", "i8": "i8", "i16": "i16", "i32": "i32", "i64": "i64", "f64": "f64", "str": "str",
+	"list": "sl i32", "set": "map i32 st 0", "map": "map i8 str", "struct": "st 1 f P 7468726966743a223122 0 i16"}
+
+type mmP struct {
+	P int16 `thrift:"1"`
+}
+type mmInner struct {
+	A int32             `thrift:"1"`
+	B string            `thrift:"2"`
+	C []int16           `thrift:"3"`
+	D map[string]bool   `thrift:"4"`
+	E bool              `thrift:"5"`
+	F map[int8]struct{} `thrift:"6"`
+	G bool              `thrift:"7,required"`
+	H *mmP              `thrift:"8"`
+}
+
+// wire samples of one kind; the first ones are written by the Encoder from a Go value of that kind
+func mmWire(kind string) []wval {
+	switch kind {
+	case "bool":
+		return []wval{wOf(true), wOf(false), {t: thrift.TRUE, bv: 1, put: func(b *tbuild) { b.w.WriteBool(true) }}}
+	case "i8":
+		return []wval{wOf(int8(0x11)), wOf(int8(-3))}
+	case "i16":
+		return []wval{wOf(int16(0x1234)), wOf(int16(-2))}
+	case "i32":
+		return []wval{wOf(int32(0x12345678)), wOf(int32(-70000))}
+	case "i64":
+		return []wval{wOf(int64(0x123456789abcdef)), wOf(int64(-1))}
+	case "f64":
+		return []wval{wOf(1.5)}
+	case "str":
+		return []wval{wOf("hello"), wOf(""), wOf(strings.Repeat("z", 200)), wOf([]byte{0, 1, 2})}
+	case "list":
+		return []wval{wOf([]int32{1, 2, 3}), wOf([]string{"a", "bc"}), wOf([][]bool{{true}, {}}), wOf([]int64{}), wOf(make([]int8, 20)),
+			wOf([]mmP{{1}, {2}}), wOf([]bool{true, false})}
+	case "set":
+		return []wval{wOf(map[int32]struct{}{7: {}}), wOf(map[string]struct{}{"k": {}}), wOf(map[int32]struct{}{}),
+			wList(true, thrift.LIST, wOf([]int8{1}), wOf([]int8{})), wList(true, thrift.I64, wRep(wOf(int64(300)), 17)...)}
+	case "map":
+		return []wval{wOf(map[int8]string{1: "a"}), wOf(map[string][]int16{"k": {1, 2}}), wOf(map[int8]string{}), wOf(map[bool]bool{true: false}),
+			wMap(thrift.STRUCT, thrift.MAP, wStruct(wfld{3, wOf(true)}), wOf(map[int8]int8{1: 2}), wStruct(), wOf(map[int8]int8{}))}
+	case "struct":
+		return []wval{wOf(mmP{5}), wOf(struct{}{}),
+			wOf(mmInner{A: 5, B: "x", C: []int16{1, 2, 3}, D: map[string]bool{"k": true}, E: true, F: map[int8]struct{}{3: {}}, H: &mmP{9}}),
+			wStruct(wfld{1, wOf("not an i16")}, wfld{300, wOf(false)}, wfld{2, wOf(mmP{1})})}
+	}
+	panic("kind " + kind)
+}
+
+type mmSpec struct {
+	pn     string
+	xty    *Ty
+	xopts  string // e.g. ",required"
+	wire   wval
+	equiv  *wval  // what a non-strict decoder is expected to see in place of `wire` (nil = nothing: the field is absent)
+	pos    int    // 0 first, 1 middle, 2 last, 3 the only field
+	oracle bool   // the non-strict result is known: that of the message with `equiv`
+	strict string // strict-mode oracle: "" none, "same" as non-strict, or an error class
+	trunc  bool   // also every truncation from the start of the field on
+	mode   int    // 0: the complete inputs (both strictness settings); 1: the truncations only (specs with trunc set)
+}
+
+// mismatchCase: struct {A i32 (1); X xty (xid); B str (3); C bool (4)} with the field X encoded as `wire`, the other
+// fields (recognisable values) around it.
+func (h *H) mismatchCase(s mmSpec) {
+	if s.mode == 1 && !s.trunc {
+		return
+	}
+	p := thriftProto(s.pn)
+	xid := []int{2, 5, 20, 300}[h.Intn(4)]
+	ty := &Ty{K: "st"}
+	fx := tyF("X", xid, s.xopts, s.xty)
+	if s.pos == 3 {
+		ty.Fields = []Field{fx}
+	} else {
+		ty.Fields = []Field{tyF("A", 1, "", &Ty{K: "i32"}), fx, tyF("B", 3, "", &Ty{K: "str"}), tyF("C", 4, "", &Ty{K: "bool"})}
+	}
+	ts := ty.String()
+	a := int32(h.U64())
+	bs := make([]byte, 1+h.Intn(5))
+	for i := range bs {
+		bs[i] = byte('a' + h.Intn(26))
+	}
+	c := h.Intn(4) != 0
+	short := h.Intn(3) != 0
+	order := [][]string{{"X", "A", "B", "C"}, {"A", "X", "B", "C"}, {"A", "B", "C", "X"}, {"X"}}[s.pos]
+	build := func(x *wval) (out []byte, xs int) {
+		b := newTB(s.pn)
+		for _, f := range order {
+			switch f {
+			case "A":
+				b.putField(1, wOf(a), short)
+			case "B":
+				b.putField(3, wOf(string(bs)), short)
+			case "C":
+				b.putField(4, wOf(c), short)
+			case "X":
+				xs = b.buf.Len()
+				if x != nil {
+					b.putField(int16(xid), *x, short)
+				}
+			}
+		}
+		b.stop()
+		return b.bytes(), xs
+	}
+	full, xs := build(&s.wire)
+	want := ""
+	if s.oracle {
+		eq, _ := build(s.equiv)
+		if w := thriftDecode(p, false, ty, eq); strings.HasPrefix(w, "ok:") {
+			want = w
+		}
+	}
+	h.Count("mismatch_cases", 1)
+	if want != "" {
+		h.DoRisky("thrift.decode", s.pn, "0", ts, hx(full), want)
+	} else {
+		h.DoRisky("thrift.decode", s.pn, "0", ts, hx(full))
+	}
+	if s.mode == 0 {
+		switch {
+		case s.strict == "same" && want != "":
+			h.DoRisky("thrift.decode", s.pn, "1", ts, hx(full), want)
+		case s.strict != "" && s.strict != "same":
+			h.DoRisky("thrift.decode", s.pn, "1", ts, hx(full), s.strict)
+		default:
+			h.DoRisky("thrift.decode", s.pn, "1", ts, hx(full))
+		}
+	}
+	if s.trunc && s.mode == 1 {
+		if xs == 0 {
+			xs = 1
+		}
+		for n := xs; n < len(full); n++ {
+			h.DoRisky("thrift.decode", s.pn, b01(h.Intn(4) == 0), ts, hx(full[:n]))
+			h.Count("mismatch_truncations", 1)
+		}
+	}
+}
+
+func (h *H) thriftMismatch(mode int) {
+	const tm = "err:typeMismatch"
+	for _, pn := range thriftProtos {
+		// (1) every ordered pair (wire kind, Go kind) at the field level
+		for _, wk := range mmKinds {
+			for wi, wv := range mmWire(wk) {
+				for _, gk := range mmKinds {
+					gt := parseTy(mmGoTy[gk])
+					poss := []int{h.Intn(3)}
+					if wi == 0 || h.Thorough() {
+						poss = []int{0, 1, 2, 3}
+					}
+					for _, pos := range poss {
+						s := mmSpec{mode: mode, pn: pn, xty: gt, wire: wv, pos: pos, trunc: wi == 0 && pos == 1 || h.Thorough() && pos == wi%4}
+						if wk != gk {
+							s.oracle, s.strict = true, tm
+						}
+						h.mismatchCase(s)
+					}
+				}
+			}
+		}
+		// a pointer field, a required field (present with the wrong type: seen, so not missing)
+		for _, wk := range mmKinds {
+			if wk != "i32" {
+				h.mismatchCase(mmSpec{mode: mode, pn: pn, xty: parseTy("ptr i32"), wire: mmWire(wk)[0], pos: h.Intn(4), oracle: true, strict: tm})
+				h.mismatchCase(mmSpec{mode: mode, pn: pn, xty: parseTy("i32"), xopts: ",required", wire: mmWire(wk)[0], pos: h.Intn(4)})
+			}
+		}
+		// (2) the ELEMENTS of a list / set / map have another type than the Go element type
+		for _, ek := range mmKinds {
+			es := mmWire(ek)
+			e, et := es[0], es[0].t
+			e2 := es[1%len(es)]
+			if e2.t != et {
+				e2 = e
+			}
+			tr := func() bool { return pn == "c" || h.Thorough() || h.Intn(4) == 0 }
+			if ek != "i32" {
+				for _, n := range []int{0, 1, 3, 16} {
+					if n == 16 && h.Intn(3) != 0 {
+						continue
+					}
+					els := wRep(e, n)
+					if n > 1 {
+						els[1] = e2
+					}
+					// list: the type is compared before the size (an empty list of another type is a mismatch)
+					h.mismatchCase(mmSpec{mode: mode, pn: pn, xty: parseTy("sl i32"), wire: wList(false, et, els...), pos: h.Intn(4), oracle: true, strict: tm, trunc: n == 3 && tr()})
+					// set and map: size 0 returns before the types are compared
+					st := tm
+					if n == 0 {
+						st = "same"
+					}
+					h.mismatchCase(mmSpec{mode: mode, pn: pn, xty: parseTy("map i32 st 0"), wire: wList(true, et, els...), pos: h.Intn(4), oracle: true, strict: st, trunc: n == 3 && tr()})
+					if n == 16 {
+						continue
+					}
+					var kv, vv, bb []wval
+					other := mmWire(mmKinds[(h.Intn(len(mmKinds)))])[0]
+					for i := 0; i < n; i++ {
+						kv = append(kv, els[i], wOf("v"))
+						vv = append(vv, wOf(int32(i)), els[i])
+						bb = append(bb, els[i], other)
+					}
+					h.mismatchCase(mmSpec{mode: mode, pn: pn, xty: parseTy("map i32 str"), wire: wMap(et, thrift.BINARY, kv...), pos: h.Intn(4), oracle: true, strict: st, trunc: n == 3 && tr()})
+					if ek != "str" {
+						h.mismatchCase(mmSpec{mode: mode, pn: pn, xty: parseTy("map i32 str"), wire: wMap(thrift.I32, et, vv...), pos: h.Intn(4), oracle: true, strict: st, trunc: n == 1 && tr()})
+					}
+					if other.t != thrift.BINARY {
+						h.mismatchCase(mmSpec{mode: mode, pn: pn, xty: parseTy("map i32 str"), wire: wMap(et, other.t, bb...), pos: h.Intn(4), oracle: true, strict: st})
+					}
+				}
+				// other Go element types against the same wire elements
+				for _, gts := range []string{"sl str", "sl sl i8", "sl " + mmGoTy["struct"], "sl ptr i32", "map str st 0", "map str map i8 i8"} {
+					gt := parseTy(gts)
+					var w wval
+					switch {
+					case gt.K == "sl":
+						w = wList(false, et, e, e2)
+					case gt.Elem.K == "st":
+						w = wList(true, et, e)
+					default:
+						w = wMap(thrift.BINARY, et, wOf("k"), e)
+					}
+					gte := thrift.TypeOf(gt.Elem.Reflect())
+					if gt.K == "map" && gt.Elem.K == "st" {
+						gte = thrift.BINARY
+					}
+					if gte != et && !(gte == thrift.BOOL && et == thrift.TRUE) {
+						h.mismatchCase(mmSpec{mode: mode, pn: pn, xty: gt, wire: w, pos: h.Intn(4), oracle: true, strict: tm})
+					} else {
+						h.mismatchCase(mmSpec{mode: mode, pn: pn, xty: gt, wire: w, pos: h.Intn(4)})
+					}
+				}
+				// (3) the mismatch sits deeper: inside a matching list / map value / struct / list of structs
+				q := func(v int16) wfld { return wfld{2, wOf(v)} }
+				pq := "st 2 f P 7468726966743a223122 0 %s f Q 7468726966743a223222 0 i16"
+				nested := []struct {
+					gt    string
+					wire  wval
+					equiv wval
+				}{
+					{"sl sl i32", wList(false, thrift.LIST, wList(false, et, e, e2), wList(false, et)), wOf([][]int32{{}, {}})},
+					{"map i8 sl i32", wMap(thrift.I8, thrift.LIST, wOf(int8(1)), wList(false, et, e)), wOf(map[int8][]int32{1: {}})},
+					{fmt.Sprintf(pq, "sl i32"), wStruct(wfld{1, wList(false, et, e)}, q(5)), wStruct(q(5))},
+					{"sl " + fmt.Sprintf(pq, "i32"), wList(false, thrift.STRUCT, wStruct(wfld{1, e}, q(6)), wStruct(q(7), wfld{1, e2})),
+						wList(false, thrift.STRUCT, wStruct(q(6)), wStruct(q(7)))},
+					{"map str map i32 st 0", wMap(thrift.BINARY, thrift.SET, wOf("k"), wList(true, et, e)), wOf(map[string]map[int32]struct{}{"k": {}})},
+					{"sl map i32 str", wList(false, thrift.MAP, wMap(et, thrift.BINARY, e, wOf("v"))), wOf([]map[int32]string{{}})},
+					// a field that is present with the right type allocates its pointer, then the elements are skipped
+					{"ptr " + fmt.Sprintf(pq, "ptr sl ptr i32"), wStruct(q(8), wfld{1, wList(false, et, e, e)}), wStruct(q(8), wfld{1, wList(false, thrift.I32)})},
+				}
+				for _, c := range nested {
+					eq := c.equiv
+					h.mismatchCase(mmSpec{mode: mode, pn: pn, xty: parseTy(c.gt), wire: c.wire, equiv: &eq, pos: h.Intn(4), oracle: true, strict: tm, trunc: tr() && h.Intn(2) == 0})
+				}
+			}
+		}
+	}
+}
+
+// thriftBadTypes: type codes that are no thrift type (0 as a value type, 13 and up) where a mismatching or unknown value
+// would be skipped: field headers, list / set element types, map key / value types; sizes 0 and 1
+func (h *H) thriftBadTypes() {
+	const tm = "err:typeMismatch"
+	for _, pn := range thriftProtos {
+		codes := []int{0, 13, 14, 15}
+		if pn != "c" {
+			codes = append(codes, 16, 0x7f, -128, -1, -3)
+		}
+		for _, tc := range codes {
+			t := thrift.Type(tc)
+			junk := wRaw(t, []byte{1, 2, 3, 4, 5, 6, 7, 8, 9})
+			if tc != 0 {
+				// a field of that type: declared id (non-strict: cannot be skipped; strict: reported first), unknown id
+				h.mismatchCase(mmSpec{pn: pn, xty: parseTy("i32"), wire: junk, pos: h.Intn(4), strict: tm})
+				b := newTB(pn)
+				b.putField(1, wOf(int32(5)), true)
+				b.putField(77, junk, h.Bool())
+				b.stop()
+				h.DoRisky("thrift.decode", pn, b01(h.Bool()), "st 1 f A 7468726966743a223122 0 i32", hx(b.bytes()), "err:other")
+			}
+			for _, n := range []int{0, 1} {
+				els := wRep(junk, n)
+				// element type of a list (compared before the size) / of a set (size 0 returns first)
+				h.mismatchCase(mmSpec{pn: pn, xty: parseTy("sl i32"), wire: wList(false, t, els...), pos: h.Intn(4), oracle: n == 0, strict: tm})
+				st, o := tm, false
+				if n == 0 {
+					st, o = "same", true
+				}
+				h.mismatchCase(mmSpec{pn: pn, xty: parseTy("map i32 st 0"), wire: wList(true, t, els...), pos: h.Intn(4), oracle: o, strict: st})
+				// key type, value type of a map; in a skipped (unknown) field too
+				kv := []wval{}
+				vk := []wval{}
+				if n == 1 {
+					kv = []wval{junk, wOf("v")}
+					vk = []wval{wOf(int32(1)), junk}
+				}
+				h.mismatchCase(mmSpec{pn: pn, xty: parseTy("map i32 str"), wire: wMap(t, thrift.BINARY, kv...), pos: h.Intn(4), oracle: o, strict: st})
+				h.mismatchCase(mmSpec{pn: pn, xty: parseTy("map i32 str"), wire: wMap(thrift.I32, t, vk...), pos: h.Intn(4), oracle: o, strict: st})
+				for _, w := range []wval{wList(false, t, els...), wList(true, t, els...), wMap(t, thrift.I8, kv...), wMap(thrift.I32, t, vk...)} {
+					b := newTB(pn)
+					b.putField(1, wOf(int32(5)), true)
+					b.putField(77, w, h.Bool())
+					b.putField(2, wOf("s"), true)
+					b.stop()
+					if n == 0 {
+						h.DoRisky("thrift.decode", pn, b01(h.Bool()), "st 1 f A 7468726966743a223122 0 i32", hx(b.bytes()), "ok:t 1 i 5")
+					} else {
+						h.DoRisky("thrift.decode", pn, b01(h.Bool()), "st 1 f A 7468726966743a223122 0 i32", hx(b.bytes()), "err:other")
+					}
+				}
+			}
+		}
+	}
+}
+
+// thriftDeltaStop: a compact field header 0x10..0xF0 (id delta, type nibble 0) is an error wherever a field header is
+// read (decoded struct, skipped struct; top level, nested); a binary field header with type 0 ends the struct whatever
+// its id.
+func (h *H) thriftDeltaStop(full bool) {
+	known := &Ty{K: "st", Fields: []Field{tyF("A", 1, "", &Ty{K: "i32"}), tyF("B", 2, "", &Ty{K: "str"}), tyF("C", 3, "", &Ty{K: "bool"})}}
+	unknown := &Ty{K: "st", Fields: []Field{tyF("Z", 100, "", &Ty{K: "i8"})}}
+	// the fields of {A, B, C} one by one
+	chunks := func(pn string) [][]byte {
+		b := newTB(pn)
+		var out [][]byte
+		at := 0
+		for i, v := range []wval{wOf(int32(h.U64())), wOf("stop"), wOf(true)} {
+			b.putField(int16(i+1), v, true)
+			out = append(out, append([]byte{}, b.buf.Bytes()[at:]...))
+			at = b.buf.Len()
+		}
+		return out
+	}
+	join := func(cs [][]byte, at int, ins []byte, stop []byte) []byte {
+		var out []byte
+		for i, c := range cs {
+			if i == at {
+				out = append(out, ins...)
+			}
+			out = append(out, c...)
+		}
+		if at >= len(cs) {
+			out = append(out, ins...)
+		}
+		return append(out, stop...)
+	}
+	// --- compact
+	cs := chunks("c")
+	inner := func(d byte, pos int) []byte { // struct {A, B, C} with the byte d before field number pos (3: before the stop, 4: instead of it)
+		if pos == 4 {
+			return join(cs, 3, []byte{d}, nil)
+		}
+		return join(cs, pos, []byte{d}, []byte{0})
+	}
+	for d := 0x10; d <= 0xF0; d += 0x10 {
+		for pos := 0; pos <= 4; pos++ {
+			if !full && pos != (d>>4)%5 {
+				continue
+			}
+			body := inner(byte(d), pos)
+			for _, ty := range []*Ty{known, unknown} {
+				for _, strict := range []string{"0", "1"} {
+					h.DoRisky("thrift.decode", "c", strict, ty.String(), hx(body), "err:other")
+				}
+			}
+			h.Count("deltastop_cases", 4)
+		}
+		// nested: in a decoded list of structs, in skipped values (unknown field: struct, list / set of structs, map with
+		// struct keys / values, struct in struct), in a mismatching declared field
+		pos := h.Intn(5)
+		bad := wRaw(thrift.STRUCT, inner(byte(d), pos))
+		good := wRaw(thrift.STRUCT, join(cs, 0, nil, []byte{0}))
+		lty := &Ty{K: "st", Fields: []Field{tyF("L", 1, "", &Ty{K: "sl", Elem: known}), tyF("Z", 2, "", &Ty{K: "i16"})}}
+		wrap := []struct {
+			ty     *Ty
+			fields []wfld
+			strict string // strict-mode oracle
+		}{
+			{lty, []wfld{{1, wList(false, thrift.STRUCT, bad)}, {2, wOf(int16(7))}}, "err:other"},
+			{lty, []wfld{{1, wList(false, thrift.STRUCT, good, good, bad)}, {2, wOf(int16(7))}}, "err:other"},
+			{lty, []wfld{{2, wOf(int16(7))}, {50, bad}}, "err:other"},
+			{lty, []wfld{{50, wList(false, thrift.STRUCT, good, bad)}, {2, wOf(int16(7))}}, "err:other"},
+			{lty, []wfld{{50, wList(true, thrift.STRUCT, bad, good)}}, "err:other"},
+			{lty, []wfld{{50, wMap(thrift.I8, thrift.STRUCT, wOf(int8(1)), bad)}}, "err:other"},
+			{lty, []wfld{{50, wMap(thrift.STRUCT, thrift.I8, bad, wOf(int8(1)))}}, "err:other"},
+			{lty, []wfld{{50, wStruct(wfld{1, wOf(int8(1))}, wfld{2, bad})}}, "err:other"},
+			{lty, []wfld{{2, bad}}, "err:typeMismatch"},
+			{lty, []wfld{{1, wList(false, thrift.LIST, wList(false, thrift.STRUCT, bad))}}, "err:typeMismatch"},
+			{lty, []wfld{{1, wList(false, thrift.STRUCT, wStruct(wfld{1, wOf(int32(1))}, wfld{9, bad}))}}, "err:other"},
+		}
+		for ci, c := range wrap {
+			if !full && (ci+d>>4)%4 != 0 {
+				continue
+			}
+			b := newTB("c")
+			for _, f := range c.fields {
+				b.putField(f.id, f.v, h.Bool())
+			}
+			b.stop()
+			h.DoRisky("thrift.decode", "c", "0", c.ty.String(), hx(b.bytes()), "err:other")
+			h.DoRisky("thrift.decode", "c", "1", c.ty.String(), hx(b.bytes()), c.strict)
+			h.Count("deltastop_cases", 2)
+		}
+	}
+	// --- binary: type byte 0 with a non-zero id is the stop field
+	for _, pn := range []string{"bs", "bn"} {
+		p := thriftProto(pn)
+		cs := chunks(pn)
+		normal := thriftDecode(p, false, known, join(cs, 0, nil, []byte{0, 0, 0}))
+		zero := thriftDecode(p, false, known, []byte{0, 0, 0})
+		for k := 0; k < 6; k++ {
+			if !full && k > 0 {
+				break
+			}
+			id := 1 + h.Intn(0xFFFF)
+			sx := []byte{0, byte(id >> 8), byte(id)}
+			for _, strict := range []string{"0", "1"} {
+				h.DoRisky("thrift.decode", pn, strict, known.String(), hx(join(cs, 0, nil, sx)), normal)
+				h.DoRisky("thrift.decode", pn, strict, unknown.String(), hx(join(cs, 0, nil, sx)), "ok:t 1 i 0")
+				h.DoRisky("thrift.decode", pn, strict, known.String(), hx(sx), zero)
+				h.DoRisky("thrift.decode", pn, strict, known.String(), hx(join(cs, 0, sx, []byte{0, 0, 0})), "err:trailing")
+				h.DoRisky("thrift.decode", pn, strict, known.String(), hx(join(cs, 1+h.Intn(2), sx, []byte{0, 0, 0})), "err:trailing")
+				// nested: the inner struct ends at the odd stop, what follows belongs to the outer struct (no oracle)
+				b := newTB(pn)
+				b.putField(50, wRaw(thrift.STRUCT, join(cs, 1+h.Intn(2), sx, []byte{0, 0, 0})), true)
+				b.putField(3, wOf(true), true)
+				b.stop()
+				h.DoRisky("thrift.decode", pn, strict, known.String(), hx(b.bytes()))
+				b = newTB(pn)
+				b.putField(50, wRaw(thrift.STRUCT, join(cs, 0, nil, sx)), true)
+				b.putField(3, wOf(true), true)
+				b.stop()
+				h.DoRisky("thrift.decode", pn, strict, known.String(), hx(b.bytes()), "ok:t 3 i 0 s - b1")
+				h.Count("deltastop_cases", 7)
+			}
+		}
+	}
+}
+
+// deepWire: n nested containers, level i of the kind pattern[i mod len]: l list, s set, m map (nesting in the value),
+// k map (nesting in the key), t struct (nesting in field 1); the innermost container holds `leaf`.
+func deepWire(pn string, pattern string, n int, leaf wval) wval {
+	typeOf := func(i int) thrift.Type {
+		if i >= n {
+			return leaf.t
+		}
+		switch pattern[i%len(pattern)] {
+		case 'l':
+			return thrift.LIST
+		case 's':
+			return thrift.SET
+		case 'm', 'k':
+			return thrift.MAP
+		}
+		return thrift.STRUCT
+	}
+	return wval{t: typeOf(0), put: func(b *tbuild) {
+		sb := newTB(pn)
+		var suffix [][]byte
+		for i := 0; i < n; i++ {
+			next := typeOf(i + 1)
+			switch pattern[i%len(pattern)] {
+			case 'l':
+				b.w.WriteList(thrift.List{Size: 1, Type: next})
+			case 's':
+				b.w.WriteSet(thrift.Set{Size: 1, Type: next})
+			case 'm':
+				b.w.WriteMap(thrift.Map{Size: 1, Key: thrift.I8, Value: next})
+				b.w.WriteInt8(1)
+			case 'k':
+				b.w.WriteMap(thrift.Map{Size: 1, Key: next, Value: thrift.I8})
+				sb.buf.Reset()
+				sb.w.WriteInt8(2)
+				suffix = append(suffix, sb.bytes())
+			default:
+				b.w.WriteField(thrift.Field{ID: 1, Type: next, Delta: true})
+				sb.buf.Reset()
+				sb.stop()
+				suffix = append(suffix, sb.bytes())
+			}
+		}
+		leaf.put(b)
+		for i := len(suffix) - 1; i >= 0; i-- {
+			b.buf.Write(suffix[i])
+		}
+	}}
+}
+
+// thriftDepth: the decoder enters at most maxDepth = 10000 structs / lists / sets / maps (the outer struct counts)
+func (h *H) thriftDepth() {
+	const max = 10000
+	leaf := wOf(int8(5))
+	ab := &Ty{K: "st", Fields: []Field{tyF("A", 1, "", &Ty{K: "i32"}), tyF("X", 2, "", &Ty{K: "i32"}), tyF("B", 3, "", &Ty{K: "str"})}}
+	withX := func(x *Ty) *Ty {
+		return &Ty{K: "st", Fields: []Field{tyF("A", 1, "", &Ty{K: "i32"}), tyF("X", 2, "", x), tyF("B", 3, "", &Ty{K: "str"})}}
+	}
+	// message {A, <id>: v, B}; without v when v is nil
+	msg := func(pn string, id int16, v *wval) []byte {
+		b := newTB(pn)
+		b.putField(1, wOf(int32(77)), true)
+		if v != nil {
+			b.putField(id, *v, h.Bool())
+		}
+		b.putField(3, wOf("end"), h.Bool())
+		b.stop()
+		return b.bytes()
+	}
+	// run: n nested containers under field `id` of ty; accepted iff n <= limit
+	run := func(pn string, ty *Ty, id int16, pattern string, n, limit int, strict string, strictWant string) {
+		w := deepWire(pn, pattern, n, leaf)
+		in := msg(pn, id, &w)
+		want := "err:other"
+		if n <= limit {
+			want = thriftDecode(thriftProto(pn), false, ty, msg(pn, id, nil))
+		}
+		if strict == "1" && strictWant != "" {
+			want = strictWant
+		}
+		h.DoRisky("thrift.decode", pn, strict, ty.String(), hx(in), want)
+		h.Count("depth_cases", 1)
+		if h.Intn(8) == 0 { // the input cut somewhere
+			h.DoRisky("thrift.decode", pn, strict, ty.String(), hx(in[:1+h.Intn(len(in)-1)]))
+		}
+	}
+	// compact (one to three bytes a level): 9998 … 10002 around the limit 9999 … ; binary (five and more bytes a level): the
+	// two values at the limit
+	ns := func(pn string, limit int) []int {
+		if pn == "c" {
+			return []int{limit - 1, limit, limit + 1, limit + 2, limit + 3}
+		}
+		return []int{limit, limit + 1}
+	}
+	for _, pn := range thriftProtos {
+		pats := []string{"l", "s", "m", "k", "t", "lsmkt", "tl", "km"}
+		if pn != "c" {
+			pats = []string{"l", "t"}
+			if pn == "bn" {
+				pats = []string{"s", "kmtl"}
+			}
+		}
+		// unknown field: the k-th nested container is container number k+1
+		for _, pat := range pats {
+			for _, n := range ns(pn, max-1) {
+				run(pn, ab, 9, pat, n, max-1, b01(h.Intn(4) == 0), "")
+			}
+		}
+		// declared field of another type: skipped the same way (strict: reported before anything is skipped)
+		for pi, pat := range pats {
+			if pn == "c" && pi > 2 || pn != "c" && pi > 0 {
+				break
+			}
+			for _, n := range ns(pn, max-1) {
+				run(pn, ab, 2, pat, n, max-1, "0", "")
+				if n == max {
+					run(pn, ab, 2, pat, n, max-1, "1", "err:typeMismatch")
+				}
+			}
+		}
+		// elements of a declared list / set / map of another element type (skipValues)
+		for _, c := range [][2]string{{"sl i32", "l"}, {"sl i32", "lt"}, {"map i32 st 0", "s"}, {"map i32 st 0", "sm"}, {"map i8 str", "m"}, {"map i8 str", "k"}, {"map i8 str", "kl"},
+			{"sl sl i8", "lt"}} {
+			if pn != "c" && (len(c[1]) > 1 || (c[1] == "l") != (pn == "bs") && (c[1] == "k") != (pn == "bn")) {
+				continue
+			}
+			for _, n := range ns(pn, max-1) {
+				run(pn, withX(parseTy(c[0])), 2, c[1], n, max-1, "0", "")
+			}
+			if pn == "c" {
+				run(pn, withX(parseTy(c[0])), 2, c[1], max-1, max-1, "1", "err:typeMismatch")
+			}
+		}
+		// the mismatch below two matching levels: X = [{1: <list left alone>}]
+		for _, n := range ns(pn, max-1) {
+			if pn == "bs" {
+				break
+			}
+			ty := withX(parseTy("sl map i8 sl i8"))
+			w := deepWire(pn, "lmlk", n, leaf)
+			want := "err:other"
+			if n <= max-1 {
+				want = "ok:t 3 i 77 l 1 m 1 i 1 nil s 656e64"
+			}
+			h.DoRisky("thrift.decode", pn, "0", ty.String(), hx(msg(pn, 2, &w)), want)
+			h.Count("depth_cases", 1)
+		}
+	}
+	// top level values that are not structs: one container less has been entered
+	for _, pn := range thriftProtos {
+		for ci, c := range [][2]string{{"sl i32", "l"}, {"map i32 st 0", "s"}, {"map i8 str", "mk"}, {"sl sl sl i8", "lllt"}} {
+			if pn == "bs" && ci != 0 || pn == "bn" && ci != 1 {
+				continue
+			}
+			for _, n := range ns(pn, max) {
+				w := deepWire(pn, c[1], n, leaf)
+				b := newTB(pn)
+				w.put(b)
+				want := "err:other"
+				if n <= max {
+					want = "ok:nil"
+					if c[0] == "sl sl sl i8" {
+						want = "ok:l 1 l 1 nil"
+					}
+				}
+				h.DoRisky("thrift.decode", pn, "0", c[0], hx(b.bytes()), want)
+				h.Count("depth_cases", 1)
+			}
+		}
+	}
+	// declared types of depth D (lists, map values, structs, pointers — a pointer is not a level) around a struct with a
+	// deep unknown field: D + 1 containers have been entered where the unknown field starts
+	for _, pn := range thriftProtos {
+		for _, dp := range []string{"l", "m", "t", "lpmt", "pl"} {
+			for _, D := range []int{1, 2, 50, 200} {
+				if pn != "c" && (D != 50 || (dp == "l") != (pn == "bs") && (dp == "lpmt") != (pn == "bn")) {
+					continue
+				}
+				// the Go type and the matching wire pattern
+				innerTy := &Ty{K: "st", Fields: []Field{tyF("A", 1, "", &Ty{K: "i8"})}}
+				ty := innerTy
+				levels := 0
+				var wirePat []byte
+				for i := D - 1; i >= 0; i-- {
+					switch k := dp[i%len(dp)]; k {
+					case 'l':
+						ty = &Ty{K: "sl", Elem: ty}
+					case 'm':
+						ty = &Ty{K: "map", Key: &Ty{K: "i8"}, Elem: ty}
+					case 't':
+						ty = &Ty{K: "st", Fields: []Field{tyF("F", 1, "", ty)}}
+					case 'p':
+						ty = &Ty{K: "ptr", Elem: ty}
+						continue
+					}
+					levels++
+					wirePat = append([]byte{dp[i%len(dp)]}, wirePat...)
+				}
+				limit := max - 1 - levels
+				for _, n := range []int{limit, limit + 1} {
+					innerMsg := func(v *wval) wval {
+						fs := []wfld{{1, wOf(int8(3))}}
+						if v != nil {
+							fs = append(fs, wfld{9, *v})
+						}
+						return wStruct(fs...)
+					}
+					enc := func(v *wval) []byte {
+						b := newTB(pn)
+						if levels == 0 {
+							innerMsg(v).put(b)
+						} else {
+							deepWire(pn, string(wirePat), levels, innerMsg(v)).put(b)
+						}
+						return b.bytes()
+					}
+					w := deepWire(pn, []string{"l", "tl", "mk"}[h.Intn(3)], n, leaf)
+					want := "err:other"
+					if n <= limit {
+						want = thriftDecode(thriftProto(pn), false, ty, enc(nil))
+					}
+					h.DoRisky("thrift.decode", pn, b01(h.Intn(4) == 0), ty.String(), hx(enc(&w)), want)
+					h.Count("depth_cases", 1)
+				}
+			}
+		}
+	}
+	// a declared field at the limit: X [](9999 / 10000 times)int8 inside the struct, all levels on the wire, the
+	// innermost list with two elements
+	for _, pn := range thriftProtos {
+		for _, D := range []int{max - 2, max - 1, max} {
+			if pn == "bs" && D != max || pn == "bn" && D != max-1 {
+				continue
+			}
+			x := &Ty{K: "i8"}
+			for i := 0; i < D; i++ {
+				x = &Ty{K: "sl", Elem: x}
+			}
+			ty := withX(x)
+			w := deepWire(pn, "l", D-1, wList(false, thrift.I8, wOf(int8(1)), wOf(int8(2))))
+			for _, strict := range []string{"0", "1"} {
+				if D <= max-1 {
+					h.DoRisky("thrift.decode", pn, strict, ty.String(), hx(msg(pn, 2, &w))) // ok: model correspondence
+				} else {
+					h.DoRisky("thrift.decode", pn, strict, ty.String(), hx(msg(pn, 2, &w)), "err:other")
+				}
+				h.Count("depth_cases", 1)
+			}
+		}
+	}
+	// a map / set / struct / pointer to struct below 9999 or 10000 declared lists: it is container number 10000 (entered) or
+	// 10001 (refused — but an empty set or map returns before it is entered, and skipped scalars are no level)
+	for _, pn := range thriftProtos {
+		for _, D := range []int{max - 1, max} {
+			if pn == "bs" && D != max || pn == "bn" && D != max-1 {
+				continue
+			}
+			pS := "st 1 f A 7468726966743a223122 0 i8"
+			inners := []struct {
+				ty    string
+				wire  wval
+				atMax string // oracle for D = max ("" none)
+			}{
+				{"map i8 i8", wOf(map[int8]int8{1: 2}), "err:other"},
+				{"map i8 i8", wOf(map[int8]int8{}), ""},
+				{"map i8 i8", wOf(map[int8]string{1: "x"}), ""},
+				{"map i8 i8", wOf(map[int8][]int8{1: {1}}), "err:other"},
+				{"map i8 st 0", wOf(map[int8]struct{}{1: {}}), "err:other"},
+				{"map i8 st 0", wOf(map[int8]struct{}{}), ""},
+				{"map i8 st 0", wOf(map[int16]struct{}{1: {}, 2: {}}), ""},
+				{"map i8 st 0", wList(true, thrift.STRUCT, wStruct()), "err:other"},
+				{pS, wOf(mmP{4}), "err:other"},
+				{pS, wStruct(), "err:other"},
+				{"ptr ptr " + pS, wStruct(wfld{1, wOf(int8(4))}, wfld{2, wOf(true)}), "err:other"},
+				{"sl i8", wOf([]int16{1, 2}), ""},
+				{"sl i8", wOf([][]int8{{1}}), "err:other"},
+				{"sl i8", wOf([]int8{}), "err:other"},
+				{"str", wOf("leaf"), ""},
+			}
+			for _, in := range inners {
+				ty := parseTy(in.ty)
+				for i := 0; i < D; i++ {
+					ty = &Ty{K: "sl", Elem: ty}
+				}
+				b := newTB(pn)
+				deepWire(pn, "l", D, in.wire).put(b)
+				if D == max && in.atMax != "" {
+					h.DoRisky("thrift.decode", pn, "0", ty.String(), hx(b.bytes()), in.atMax)
+				} else {
+					h.DoRisky("thrift.decode", pn, "0", ty.String(), hx(b.bytes()))
+				}
+				h.Count("depth_cases", 1)
+			}
+		}
+	}
+	// declared types that are themselves at the limit: []…[]int8 with 9999 / 10000 / 10001 levels
+	for _, pn := range thriftProtos {
+		for _, D := range []int{max - 1, max, max + 1} {
+			if pn != "c" && D != max+1 {
+				continue
+			}
+			ty := &Ty{K: "i8"}
+			for i := 0; i < D; i++ {
+				ty = &Ty{K: "sl", Elem: ty}
+			}
+			for _, n := range []int{max, max + 1} {
+				if n > D {
+					continue
+				}
+				// n nested lists, the innermost one empty (element type: list, or i8 when all D levels are there)
+				var in []byte
+				b := newTB(pn)
+				if n == D {
+					wList(false, thrift.LIST, deepWire(pn, "l", n-2, wList(false, thrift.I8))).put(b)
+				} else {
+					wList(false, thrift.LIST, deepWire(pn, "l", n-2, wList(false, thrift.LIST))).put(b)
+				}
+				in = b.bytes()
+				if n <= max {
+					h.DoRisky("thrift.decode", pn, "0", ty.String(), hx(in)) // ok: a value 10000 levels deep
+				} else {
+					h.DoRisky("thrift.decode", pn, "0", ty.String(), hx(in), "err:other")
+				}
+				h.Count("depth_cases", 1)
+			}
+		}
+	}
+}
+
+var msgSeqs = []int64{0, 1, 127, 128, 16383, 16384, 2147483647, -1, -2, -128, -2147483648}
+
+func thriftWriteMessage(pn string, mt int, name []byte, seq int64) []byte {
+	var buf bytes.Buffer
+	thriftProto(pn).NewWriter(&buf).WriteMessage(thrift.Message{Type: thrift.MessageType(mt), Name: string(name), SeqID: int32(seq)})
+	return buf.Bytes()
+}
+
+// thriftMessageRoundTrip: ReadMessage(WriteMessage(m)) == m, nothing left unread; with bytes behind it they stay unread
+func (h *H) thriftMessageRoundTrip(full bool) {
+	for _, pn := range thriftProtos {
+		for _, nl := range []int{0, 1, 127, 128, 300} {
+			name := make([]byte, nl)
+			for i := range name {
+				name[i] = byte('a' + h.Intn(26))
+			}
+			seqs := append(append([]int64{}, msgSeqs...), int64(int32(h.U64())), int64(int32(h.U64())>>uint(h.Intn(31))))
+			for _, seq := range seqs {
+				for mt := 0; mt < 4; mt++ {
+					if !full && h.Intn(4) != 0 {
+						continue
+					}
+					b := thriftWriteMessage(pn, mt, name, seq)
+					ss := strconv.FormatInt(seq, 10)
+					if full {
+						h.Do("thrift.message", pn, strconv.Itoa(mt), hx(name), ss)
+					}
+					h.Do("thrift.readmessage", pn, hx(b), fmt.Sprintf("ok:%d %s %d 0", mt, hx(name), seq))
+					k := 1 + h.Intn(4)
+					h.Do("thrift.readmessage", pn, hx(append(append([]byte{}, b...), h.Bytes(k)...)), fmt.Sprintf("ok:%d %s %d %d", mt, hx(name), seq, k))
+					h.Count("message_roundtrips", 1)
+					if !full || mt != int(uint64(seq)%4) {
+						continue
+					}
+					// every truncation (long names: the first 14 and the last 10 offsets)
+					for n := 0; n < len(b); n++ {
+						if n >= 14 && n < len(b)-10 {
+							continue
+						}
+						o := "err:unexpectedEof"
+						if n == 0 {
+							o = "err:eof"
+						}
+						h.Do("thrift.readmessage", pn, hx(b[:n]), o)
+					}
+				}
+			}
+		}
+	}
+}
+
+// thriftWriterMsg: the two forms of a compact field header (all three writers), hand-made message headers
+func (h *H) thriftWriterMsg() {
+	for _, pn := range thriftProtos {
+		for tc := 0; tc <= 12; tc++ {
+			for _, id := range []int{-32768, -1000, -16, -15, -1, 0, 1, 2, 14, 15, 16, 17, 127, 128, 1000, 32767} {
+				for _, d := range []string{"0", "1"} {
+					h.Do("thrift.wfield", pn, strconv.Itoa(tc), strconv.Itoa(id), d)
+				}
+			}
+		}
+	}
+	h.thriftMessageRoundTrip(true)
+	cat := func(bs ...[]byte) []byte {
+		var out []byte
+		for _, b := range bs {
+			out = append(out, b...)
+		}
+		return out
+	}
+	rep := func(b byte, n int) []byte { return bytes.Repeat([]byte{b}, n) }
+	// compact: 0x82, type, seq id varint (uint32: a negative id is its two's complement), name
+	type sv struct {
+		b    []byte
+		want string // seq id, or an error class
+	}
+	seqVarints := []sv{
+		{[]byte{0xff, 0xff, 0xff, 0xff, 0x0f}, "-1"},
+		{[]byte{0x80, 0x80, 0x80, 0x80, 0x10}, "err:other"}, // 2^32
+		{[]byte{0xff, 0xff, 0xff, 0xff, 0x1f}, "err:other"},
+		{[]byte{0x80, 0x80, 0x80, 0x80, 0x08}, "-2147483648"},
+		{[]byte{0xff, 0xff, 0xff, 0xff, 0x07}, "2147483647"},
+		{[]byte{0xfe, 0xff, 0xff, 0xff, 0x0f}, "-2"},
+		{[]byte{0x00}, "0"},
+		{[]byte{0x80, 0x00}, "0"}, // overlong forms are read like any varint
+		{[]byte{0x81, 0x80, 0x80, 0x00}, "1"},
+		{cat(rep(0x80, 9), []byte{0x00}), "0"},
+		{cat([]byte{0xff, 0xff, 0xff, 0xff, 0x8f}, rep(0x80, 4), []byte{0x00}), "-1"},
+		{cat(rep(0xff, 9), []byte{0x01}), "err:other"}, // 2^64-1
+		{cat(rep(0x80, 9), []byte{0x01}), "err:other"}, // 2^63
+		{cat(rep(0x80, 9), []byte{0x02}), "err:other"}, // overflows 64 bits
+		{cat(rep(0x80, 10), []byte{0x00}), "err:other"},
+		{cat(rep(0xff, 10), []byte{0x7f}), "err:other"},
+		{[]byte{0x80}, "err:unexpectedEof"},
+		{[]byte{0xff, 0xff}, "err:unexpectedEof"},
+		{rep(0x80, 9), "err:unexpectedEof"},
+	}
+	names := [][2][]byte{{{0}, {}}, {{2, 'a', 'b'}, []byte("ab")}, {cat([]byte{0x82, 0x00}, []byte("xy")), []byte("xy")}}
+	for _, s := range seqVarints {
+		for ni, nm := range names {
+			for _, tb := range []byte{0, 1, 2, 3, 0x21, 0xff} {
+				if tb > 3 && ni != 1 {
+					continue
+				}
+				in := cat([]byte{0x82, tb}, s.b, nm[0])
+				want := s.want
+				if !strings.HasPrefix(want, "err:") {
+					want = fmt.Sprintf("ok:%d %s %s 0", tb&7, hx(nm[1]), s.want)
+				} else if want == "err:unexpectedEof" {
+					in = cat([]byte{0x82, tb}, s.b)
+				}
+				h.Do("thrift.readmessage", "c", hx(in), want)
+				if !strings.HasPrefix(want, "err:") { // every truncation of the accepted ones
+					for n := 0; n < len(in); n++ {
+						o := "err:unexpectedEof"
+						if n == 0 {
+							o = "err:eof"
+						}
+						h.Do("thrift.readmessage", "c", hx(in[:n]), o)
+					}
+				}
+			}
+		}
+	}
+	for _, in := range [][]byte{{}, {0x80}, {0x00}, {0x83, 1, 0, 0}, {0x02, 1, 0, 0}, {0x80, 1, 0, 0, 0, 0, 0, 0, 0, 0, 0, 0}} {
+		o := "err:other"
+		if len(in) == 0 {
+			o = "err:eof"
+		}
+		h.Do("thrift.readmessage", "c", hx(in), o)
+	}
+	// name lengths: beyond the int32 range (an error before anything is allocated), longer than the input
+	h.Do("thrift.readmessage", "c", hx([]byte{0x82, 1, 5, 0xff, 0xff, 0xff, 0xff, 0x0f}), "err:other")
+	h.Do("thrift.readmessage", "c", hx([]byte{0x82, 1, 5, 0x80, 0x80, 0x80, 0x80, 0x10}), "err:other")
+	h.Do("thrift.readmessage", "c", hx([]byte{0x82, 1, 5, 5, 'a', 'b'}), "err:unexpectedEof")
+	h.Do("thrift.readmessage", "c", hx([]byte{0x82, 1, 5, 0x80, 0x80, 0x04}), "err:unexpectedEof") // 64 KiB announced
+	h.Do("thrift.readmessage", "c", hx([]byte{0x82, 1, 5, 0x80}), "err:unexpectedEof")
+	// binary: the reader tells the strict form from the non-strict one by the first bit, whatever the protocol setting
+	be4 := func(n uint32) []byte { return []byte{byte(n >> 24), byte(n >> 16), byte(n >> 8), byte(n)} }
+	for _, pn := range []string{"bs", "bn"} {
+		for _, nm := range [][]byte{{}, []byte("p"), []byte("ping"), bytes.Repeat([]byte("n"), 40)} {
+			for _, seq := range []uint32{0, 1, 0x7fffffff, 0xffffffff, 0x80000000, uint32(h.U64())} {
+				for _, ver := range [][]byte{{0x80, 0, 0}, {0x80, 1, 0}, {0xff, 0xff, 0xff}, {0x81, 0x23, 0x45}} {
+					tb := byte(h.U64())
+					for _, nonStrict := range []bool{false, true} {
+						var in []byte
+						if nonStrict {
+							if ver[1] != 0 {
+								continue
+							}
+							in = cat(be4(uint32(len(nm))), nm, []byte{tb}, be4(seq))
+						} else {
+							in = cat(ver, []byte{tb}, be4(uint32(len(nm))), nm, be4(seq))
+						}
+						h.Do("thrift.readmessage", pn, hx(in), fmt.Sprintf("ok:%d %s %d 0", tb&7, hx(nm), int32(seq)))
+						for n := 0; n < len(in); n++ { // the input ends before / inside the sequence id, the name, the header
+							o := "err:unexpectedEof"
+							if n == 0 {
+								o = "err:eof"
+							}
+							h.Do("thrift.readmessage", pn, hx(in[:n]), o)
+						}
+					}
+				}
+			}
+		}
+		// name lengths: negative (strict form), larger than the input (64 KiB announced)
+		h.Do("thrift.readmessage", pn, hx(cat([]byte{0x80, 1, 0, 1}, be4(0xffffffff), []byte("abcd"))), "err:other")
+		h.Do("thrift.readmessage", pn, hx(cat([]byte{0x80, 1, 0, 1}, be4(0x80000000))), "err:other")
+		h.Do("thrift.readmessage", pn, hx(cat([]byte{0x80, 1, 0, 1}, be4(0x10000), []byte("abcd"))), "err:unexpectedEof")
+		h.Do("thrift.readmessage", pn, hx(cat(be4(0x10000), []byte("abcd"))), "err:unexpectedEof")
+		h.Do("thrift.readmessage", pn, hx(cat(be4(0x10000))), "err:unexpectedEof")
+		h.Do("thrift.readmessage", pn, hx(cat(be4(5), []byte("abcde"))), "err:unexpectedEof")
+		h.Do("thrift.readmessage", pn, hx(cat(be4(5), []byte("abcde"), []byte{1, 0, 0})), "err:unexpectedEof")
 	}
 }
